@@ -174,6 +174,28 @@ class VoteMagnitudeChecker:
             )
 
 
+@simple_serialization
+class DefaultedCheckers:
+    """Magnitude checkers by key, with a checker for every other key.
+
+    Used by the validators for their per-rank and per-count bounds; unlike
+    a ``defaultdict`` it keeps its fallback when serialized.
+
+    :param checkers: :class:`VoteMagnitudeChecker` instances by key (rank,
+        number of scored candidates).
+    :param default: The checker returned for a key that is not listed.
+    """
+    def __init__(self,
+                 checkers: Dict[int, VoteMagnitudeChecker],
+                 default: VoteMagnitudeChecker,
+                 ):
+        self.checkers = checkers
+        self.default = default
+
+    def __getitem__(self, key: int) -> VoteMagnitudeChecker:
+        return self.checkers.get(key, self.default)
+
+
 class VoteValidator(metaclass=abc.ABCMeta):
     """Validate that a single vote is valid under the election rules.
 
@@ -309,17 +331,13 @@ class RankedVoteValidator:
         self.total_count_checker = total_count_checker
         if rank_vote_count_checkers is None:
             if hasattr(rank_vote_count_bounds, 'items'):
-                rank_vote_count_checkers = collections.defaultdict(
-                    lambda: VoteMagnitudeChecker((None, None))
-                )
-                for rank, bounds in rank_vote_count_bounds.items():
-                    rank_vote_count_checkers[rank] = VoteMagnitudeChecker(
-                        bounds
-                    )
+                rank_vote_count_checkers = DefaultedCheckers({
+                    rank: VoteMagnitudeChecker(bounds)
+                    for rank, bounds in rank_vote_count_bounds.items()
+                }, VoteMagnitudeChecker((None, None)))
             else:
-                rank_checker = VoteMagnitudeChecker(rank_vote_count_bounds)
-                rank_vote_count_checkers = collections.defaultdict(
-                    lambda: rank_checker
+                rank_vote_count_checkers = DefaultedCheckers(
+                    {}, VoteMagnitudeChecker(rank_vote_count_bounds)
                 )
         self.rank_vote_count_checkers = rank_vote_count_checkers
         self.nominator = nominator
@@ -372,15 +390,14 @@ class ScoreVoteValidator:
             n_scorings_checker = VoteMagnitudeChecker(allowed_scorings)
         if sum_checkers is None:
             if hasattr(sum_bounds, 'items'):
-                no_sc = VoteMagnitudeChecker((None, None), 'sum')
-                sum_checkers = collections.defaultdict(lambda: no_sc)
-                for n_scorings, bounds in sum_bounds.items():
-                    sum_checkers[n_scorings] = VoteMagnitudeChecker(
-                        bounds, 'sum'
-                    )
+                sum_checkers = DefaultedCheckers({
+                    n_scorings: VoteMagnitudeChecker(bounds, 'sum')
+                    for n_scorings, bounds in sum_bounds.items()
+                }, VoteMagnitudeChecker((None, None), 'sum'))
             else:
-                default_sc = VoteMagnitudeChecker(sum_bounds, 'sum')
-                sum_checkers = collections.defaultdict(lambda: default_sc)
+                sum_checkers = DefaultedCheckers(
+                    {}, VoteMagnitudeChecker(sum_bounds, 'sum')
+                )
         self.n_scorings_checker = n_scorings_checker
         self.sum_checkers = sum_checkers
         self.nominator = nominator
